@@ -42,6 +42,15 @@ def generate(rng, tier) -> dict:
         else:
             v = round(fold_dm + rng.uniform(-5, 20), 3) if kind == "dm" else fold_p * (1 + round(rng.uniform(-1e-3, 1e-3), 7))
         ops.append({"k": kind, "v": v})
+    if rng.random() < 0.3 and len(ops) >= 2:
+        # a second cube DERIVED from this one in mid-history (centre()), then re-tuned on its own: calls on
+        # another object are not part of this cube's history
+        at = rng.randint(1, len(ops) - 1)
+        ops.insert(at, {"k": "centre", "v": 0})
+        for _ in range(rng.randint(1, 3)):
+            j = rng.randint(at + 1, len(ops))
+            kind = rng.choice(["dm", "period"])
+            ops.insert(j, {"k": "side_" + kind, "v": rng.choice([fold_dm, fold_dm, fold_dm + 1.0] if kind == "dm" else [fold_p, fold_p, ps[1]])})
     return {"nints": nints, "nbands": nbands, "nbins": nbins, "nchans_per_band": rng.choice([1, 2, 4]),
             "layout": rng.choice(["C", "C", "C", "T", "F", "slice"]), "header_dm": rng.choice([0.0, 0.0, 35.0, fold_dm]), "nsamples": 3600000 if long_obs else 100000,
             "fold_dm": fold_dm, "fold_period": fold_p, "ops": ops}
@@ -136,8 +145,9 @@ def execute(sc, ctx) -> None:
     if cube.dm != sc["fold_dm"] or cube.period != sc["fold_period"]:
         raise Violation("C17/construct/reported-values", f"a cube folded at dm={sc['fold_dm']} period={sc['fold_period']} reports dm={cube.dm} period={cube.period}",
                         {"api": "FoldedData", "fold_dm": sc["fold_dm"], "header_dm": sc.get("header_dm", 0.0)})
-    kinds = {o["k"] for o in sc["ops"]}
+    kinds = {o["k"] for o in sc["ops"] if o["k"] in ("dm", "period")}
     single = len(kinds) == 1
+    side = twin_side = None
     ctx.probe("dm-only" if kinds == {"dm"} else "period-only" if kinds == {"period"} else "mixed-dm-period")
     if len(sc["ops"]) >= 4:
         ctx.probe("history>=4")
@@ -145,6 +155,26 @@ def execute(sc, ctx) -> None:
     cur = {"dm": sc["fold_dm"], "period": sc["fold_period"]}
     prev_op = None
     for i, op in enumerate(sc["ops"]):
+        if op["k"] == "centre":
+            try:
+                side, twin_side = cube.centre(), twin.centre()
+                ctx.probe("derived-cube-made-in-mid-history")
+            except Exception as e:  # noqa: BLE001 - context: centre() may refuse a profile without a pulse
+                ctx.observations["centre-raised:" + type(e).__name__] += 1
+            continue
+        if op["k"].startswith("side_"):
+            if side is not None:
+                main_before = np.asarray(cube.data).copy()
+                try:
+                    for c in (side, twin_side):
+                        (c.update_dm if op["k"] == "side_dm" else c.update_period)(op["v"])
+                except Exception as e:  # noqa: BLE001
+                    ctx.observations["side-update-raised:" + type(e).__name__] += 1
+                ctx.probe("derived-cube-retuned")
+                if not np.array_equal(main_before, np.asarray(cube.data)):
+                    raise Violation("C17/derived-cube/update-changed-the-cube-it-was-derived-from", f"{op['k']}({op['v']}) on the centred copy changed the original's data",
+                                    {"api": "centre", "history": [[o["k"], o["v"]] for o in sc["ops"][: i + 1]]})
+            continue
         before = cube.data.copy()
         info = {"api": f"update_{op['k']}", "value": op["v"], "op_index": i, "history": [[o["k"], o["v"]] for o in sc["ops"][: i + 1]],
                 "fold_dm": sc["fold_dm"], "fold_period": sc["fold_period"], "single": single}
